@@ -37,6 +37,8 @@ Big == { U64Zero, U64(1), <<0,0,0,1,0,0,0,0>>, <<127,255,255,255,255,255,255,255
          <<255,255,255,255,255,255,255,254>>, <<255,255,255,255,255,255,255,255>> }
 Around(n, fsize) == { U64(x) : x \in { y \in {n - 1, n + 1, fsize, fsize - 9, fsize + 1} : y >= 0 } } \cup Big
 
+Counts(n) == { U64(x) : x \in { y \in {n - 1, n + 1, 23, 24, 255, 256, 65535, 65536, 2097152, 2147483647} : y >= 0 /\ y # n } }
+             \cup { <<0,0,0,1,0,0,0,0>>, <<64,0,0,0,0,0,0,0>>, <<127,255,255,255,255,255,255,255>>, <<128,0,0,0,0,0,0,0>>, <<255,255,255,255,255,255,255,255>> }
 Table(b) == [i \in 1..Len(Sections(b)) |-> [name |-> Sections(b)[i].name, len |-> U64(Len(Sections(b)[i].body))]]
 Bodies(b) == [i \in 1..Len(Sections(b)) |-> Sections(b)[i].body]
 Build(b, table, cnt, nsec, bodies) == Assemble(b.ver, b.primary, SectionLengthsU(table, cnt), nsec, Concat(bodies))
@@ -64,6 +66,9 @@ Muts(b) ==
   \cup { [kind |-> "trunc", i |-> c, j |-> 0, v |-> U64Zero] : c \in 0..(fsize - 1) }
   \* a section cut short by k bytes with the table adjusted consistently: the CBOR nested in the section ends inside an item
   \cup { [kind |-> "sectrunc", i |-> i, j |-> k, v |-> U64Zero] : i \in 1..n, k \in 1..3 }
+  \* declared COUNTS: the index map header and the responses array header replaced by boundary values
+  \cup { [kind |-> "idxcount", i |-> 0, j |-> 0, v |-> v] : v \in Counts(Len(Urls(b.exs))) }
+  \cup { [kind |-> "respcount", i |-> 0, j |-> 0, v |-> v] : v \in Counts(Len(b.exs)) }
   \* the same for the section-lengths byte string itself (its byte-string head adjusted)
   \cup { [kind |-> "sltrunc", i |-> 0, j |-> k, v |-> U64Zero] : k \in 1..3 }
 
@@ -86,6 +91,14 @@ Apply(b, m) ==
     [] m.kind = "nsec" -> Build(b, t, 2 * n, m.i, bd)
     [] m.kind = "slcount" -> Build(b, t, m.i, n, bd)
     [] m.kind = "trunc" -> SubSeq(Plain(b), 1, m.i)
+    [] m.kind = "idxcount" ->
+         LET ix0 == bd[1]
+             ix == EncHead(5, m.v) \o SubSeq(ix0, Len(EncMapHdr(Len(Urls(b.exs)))) + 1, Len(ix0))
+         IN Build(b, [t EXCEPT ![1].len = U64(Len(ix))], 2 * n, n, [bd EXCEPT ![1] = ix])
+    [] m.kind = "respcount" ->
+         LET r0 == bd[n]
+             r == EncHead(4, m.v) \o SubSeq(r0, Len(EncArrayHdr(Len(b.exs))) + 1, Len(r0))
+         IN Build(b, [t EXCEPT ![n].len = U64(Len(r))], 2 * n, n, [bd EXCEPT ![n] = r])
     [] m.kind = "sectrunc" -> LET cut == IF Len(bd[m.i]) >= m.j THEN SubSeq(bd[m.i], 1, Len(bd[m.i]) - m.j) ELSE <<>> IN
                                Build(b, [t EXCEPT ![m.i].len = U64(Len(cut))], 2 * n, n, [bd EXCEPT ![m.i] = cut])
     [] m.kind = "sltrunc" -> LET sl == SectionLengthsU(t, 2 * n) IN
